@@ -119,7 +119,7 @@ def run_property(pid, tier="quick", seed=0, verbose=False):
     timeout_ms = 60000 if tier == "thorough" else 30000
     findings = [f for f in load_findings() if f["property"] == pid]
     reports, results, prove_s = prove(contracts, reg, REPO, timeout_ms=timeout_ms, statics=statics,
-                                      cvc5_all=(tier == "thorough" and spec.get("cvc5_all", False)),
+                                      cvc5_all=(tier == "thorough"),
                                       lemmas=spec.get("lemmas", []), brief=[f["key"] for f in findings if "#" in f["key"]])
     lock = load_lock().get(pid, {})
 
@@ -136,6 +136,12 @@ def run_property(pid, tier="quick", seed=0, verbose=False):
             return default
     known_keys = _Known({f["key"]: f for f in findings})
 
+    # the two solvers contradicting each other is a defect of the machinery (or of a solver), never a verdict about the code
+    disagree = [d for d in results if d["verdict"] == "inconsistent"]
+    if disagree:
+        for d in disagree:
+            lines.append(f"CHECKER-ERROR property={pid}: z3 and cvc5 disagree on {d['oid']} (z3={d.get('z3')}, cvc5={d.get('cvc5')})")
+        return 3, lines, f"{pid}: solver disagreement on {len(disagree)} obligation(s); exit 3"
     n_obl = len(results)
     discharged = [d for d in results if d["verdict"] == "discharged"]
     failed = [d for d in results if d["verdict"] != "discharged"]
@@ -233,6 +239,10 @@ def run_property(pid, tier="quick", seed=0, verbose=False):
         explanation=spec.get("explanation", ""),
         not_decided=spec.get("not_decided", []),
         known_findings_matched=sorted(matched_known),
+        second_opinion=dict(solver="cvc5 1.0.3", asked=sum(1 for d in results if d.get("cvc5") is not None),
+                            agrees_unsat=sum(1 for d in results if d.get("z3") == "unsat" and d.get("cvc5") == "unsat"),
+                            no_answer=sum(1 for d in results if d.get("z3") == "unsat" and d.get("cvc5") in ("unknown", "error")),
+                            contradicts=0),
     )
     if bounded:
         cov["bounded"] = dict(
